@@ -1,1 +1,140 @@
-From RC Require Import SafeFinalProps.
+(** C01 - "memory safety: a program using only the safe API never touches freed or dropped memory:
+    whatever a handle (Cc) reachable by the program points to is allocated and its value alive; the
+    collector only destroys objects no handle outside the garbage reaches".
+    Statements only; every proof is [exact <lemma>] (SafeFinalPropsA.v, SafeFinalProps.v,
+    PassMain.v).  State-level: each theorem is about ONE state satisfying the tested invariant
+    [inv_b K E m = true] (Inv.v; equivalently [InvP.Inv], [InvP.Inv_iff]) or part A's
+    strengthened invariant [SInv K b E W m] (InvP.v), for every configuration [K].  That every
+    state reached by every program satisfies them is the program-level theorem below. *)
+From Coq Require Import NArith Bool List Lia.
+From stdpp Require Import base list option.
+From RecordUpdate Require Import RecordSet.
+From RC Require Import Hdr Machine RunInd Inv InvP SafeMain SafeProps Pass PassMain SafeFinalPropsA SafeFinalProps.
+Import ListNotations RecordSetNotations.
+Local Open Scope N_scope.
+
+(** ** Reachability.  [sreach m o]: a slot or the bag holds a handle to [o], or a strong field /
+    the cleaner field of a reachable LIVE value does.  [sreach_any]: the same without requiring
+    the holder to be live. *)
+Print sreach.
+Print sreach_any.
+
+(** everything the program can reach through strong handles is allocated, its value is live, and
+    it is outside the dying set (the objects the collector is destroying or has destroyed) *)
+Theorem C01_reach_live :
+  forall (K : conf) (E : list id) (m : machine), inv_b K E m = true ->
+  forall o : id, sreach m o ->
+  exists x : obj, get m o = Some x /\ o_box x = BAlloc /\ o_vst x = VLive /\ mem_id o (dead m) = false.
+Proof. exact SafeFinalPropsA.reach_live. Qed.
+Print Assumptions C01_reach_live.
+
+(** the same for the larger relation that does not ask the holder to be live (the induction
+    shows it is) *)
+Theorem C01_reach_any_live :
+  forall (K : conf) (E : list id) (m : machine), inv_b K E m = true ->
+  forall o : id, sreach_any m o ->
+  exists x : obj, get m o = Some x /\ o_box x = BAlloc /\ o_vst x = VLive /\ mem_id o (dead m) = false.
+Proof. exact SafeFinalPropsA.reach_any_live. Qed.
+Print Assumptions C01_reach_any_live.
+
+(** the first relation is included in the second *)
+Theorem C01_sreach_sreach_any :
+  forall (m : machine) (o : id), sreach m o -> sreach_any m o.
+Proof. exact SafeFinalPropsA.sreach_sreach_any. Qed.
+Print Assumptions C01_sreach_sreach_any.
+
+(** ** The collector: the list handed to the finalize / drop phases is closed *)
+
+(** a member of the list [L] computed by the tracing pass has no handle outside the heap, and
+    every handle to it stored anywhere in the heap is a traced field of a live, unborrowed, non-map
+    member of [L]; no cleaner handle points to it *)
+Theorem C01_pass_closed :
+  forall (K : conf) (P : prog) (m : machine) (ext : id -> N) (m' : machine) (L : list id),
+  PassPre P m ext -> trace_pass K P m = (m', PDone L) ->
+  forall o : id, o ∈ L ->
+    ext o = 0 /\
+    (forall (p : id) (x : obj) (j : nat), get m p = Some x -> o_fields x !! j = Some (Some o) ->
+       p ∈ L /\ c_traced (class_of P (o_cls x)) !! j = Some true /\
+       o_ismap x = false /\ o_borrowed x = false /\ o_vst x = VLive) /\
+    (forall (p : id) (x : obj), get m p = Some x -> o_cleaner x = Some o -> False).
+Proof. exact PassMain.pass_closed. Qed.
+Print Assumptions C01_pass_closed.
+
+(** contrapositive: whatever a handle the pass does not see points to is not collected: (a) an
+    untraced field, a field of a borrowed / non-live / map object or of an object outside [L]; (b) a
+    cleaner handle; (c) a handle held outside the heap *)
+Theorem C01_untraced_is_external :
+  forall (K : conf) (P : prog) (m : machine) (ext : id -> N) (m' : machine) (L : list id),
+  PassPre P m ext -> trace_pass K P m = (m', PDone L) ->
+  (forall (p : id) (x : obj) (j : nat) (o : id), get m p = Some x -> o_fields x !! j = Some (Some o) ->
+     (c_traced (class_of P (o_cls x)) !! j <> Some true \/ o_borrowed x = true \/ o_vst x <> VLive \/
+      o_ismap x = true \/ p ∉ L) -> o ∉ L) /\
+  (forall (p : id) (x : obj) (o : id), get m p = Some x -> o_cleaner x = Some o -> o ∉ L) /\
+  (forall o : id, ext o <> 0 -> o ∉ L).
+Proof. exact SafeFinalPropsA.untraced_is_external. Qed.
+Print Assumptions C01_untraced_is_external.
+
+(** ** Observation through a handle finds the value alive *)
+
+(** [Cc::strong_count] etc. through a handle that is allocated, live and not dying: the event
+    carries [alive = true] and nothing else (no [EBad]) is logged *)
+Theorem C01_obs_alive :
+  forall (K : conf) (b : bool) (E : list id) (self : option id) (l : loc) (m : machine) (r : rloc) (o : id),
+  SInv K b E [] m -> resolve self l m = (m, Some r) -> read_loc r m = Some o ->
+  (exists x : obj, get m o = Some x /\ o_box x = BAlloc /\ o_vst x = VLive /\ mem_id o (dead m) = false /\ o_ismap x = false) ->
+  exists (rc wc : N) (fin : bool),
+    cmd_obs self l m = ok (emit (EObs o rc wc fin true) m) ROk /\
+    log (cmd_obs self l m).1 = ERes ROk :: EObs o rc wc fin true :: log m.
+Proof. exact SafeFinalProps.obs_alive. Qed.
+Print Assumptions C01_obs_alive.
+
+(** for a handle stored in a slot the side condition is automatic *)
+Theorem C01_obs_alive_slot :
+  forall (K : conf) (b : bool) (E : list id) (self : option id) (i : nat) (m : machine) (o : id),
+  SInv K b E [] m -> (i < nslots)%nat -> slots m !! i = Some (Some o) ->
+  exists (rc wc : N) (fin : bool), cmd_obs self (LS i) m = ok (emit (EObs o rc wc fin true) m) ROk.
+Proof. exact SafeFinalProps.obs_alive_slot. Qed.
+Print Assumptions C01_obs_alive_slot.
+
+(** ** Program level *)
+(* C01_safety: added by safeb *)
+
+(** ** Pins *)
+Check C01_reach_live :
+  forall (K : conf) (E : list id) (m : machine), inv_b K E m = true ->
+  forall o : id, sreach m o ->
+  exists x : obj, get m o = Some x /\ o_box x = BAlloc /\ o_vst x = VLive /\ mem_id o (dead m) = false.
+Check C01_reach_any_live :
+  forall (K : conf) (E : list id) (m : machine), inv_b K E m = true ->
+  forall o : id, sreach_any m o ->
+  exists x : obj, get m o = Some x /\ o_box x = BAlloc /\ o_vst x = VLive /\ mem_id o (dead m) = false.
+Check C01_sreach_sreach_any :
+  forall (m : machine) (o : id), sreach m o -> sreach_any m o.
+Check C01_pass_closed :
+  forall (K : conf) (P : prog) (m : machine) (ext : id -> N) (m' : machine) (L : list id),
+  PassPre P m ext -> trace_pass K P m = (m', PDone L) ->
+  forall o : id, o ∈ L ->
+    ext o = 0 /\
+    (forall (p : id) (x : obj) (j : nat), get m p = Some x -> o_fields x !! j = Some (Some o) ->
+       p ∈ L /\ c_traced (class_of P (o_cls x)) !! j = Some true /\
+       o_ismap x = false /\ o_borrowed x = false /\ o_vst x = VLive) /\
+    (forall (p : id) (x : obj), get m p = Some x -> o_cleaner x = Some o -> False).
+Check C01_untraced_is_external :
+  forall (K : conf) (P : prog) (m : machine) (ext : id -> N) (m' : machine) (L : list id),
+  PassPre P m ext -> trace_pass K P m = (m', PDone L) ->
+  (forall (p : id) (x : obj) (j : nat) (o : id), get m p = Some x -> o_fields x !! j = Some (Some o) ->
+     (c_traced (class_of P (o_cls x)) !! j <> Some true \/ o_borrowed x = true \/ o_vst x <> VLive \/
+      o_ismap x = true \/ p ∉ L) -> o ∉ L) /\
+  (forall (p : id) (x : obj) (o : id), get m p = Some x -> o_cleaner x = Some o -> o ∉ L) /\
+  (forall o : id, ext o <> 0 -> o ∉ L).
+Check C01_obs_alive :
+  forall (K : conf) (b : bool) (E : list id) (self : option id) (l : loc) (m : machine) (r : rloc) (o : id),
+  SInv K b E [] m -> resolve self l m = (m, Some r) -> read_loc r m = Some o ->
+  (exists x : obj, get m o = Some x /\ o_box x = BAlloc /\ o_vst x = VLive /\ mem_id o (dead m) = false /\ o_ismap x = false) ->
+  exists (rc wc : N) (fin : bool),
+    cmd_obs self l m = ok (emit (EObs o rc wc fin true) m) ROk /\
+    log (cmd_obs self l m).1 = ERes ROk :: EObs o rc wc fin true :: log m.
+Check C01_obs_alive_slot :
+  forall (K : conf) (b : bool) (E : list id) (self : option id) (i : nat) (m : machine) (o : id),
+  SInv K b E [] m -> (i < nslots)%nat -> slots m !! i = Some (Some o) ->
+  exists (rc wc : N) (fin : bool), cmd_obs self (LS i) m = ok (emit (EObs o rc wc fin true) m) ROk.
